@@ -179,6 +179,49 @@ SUBS = ["secret", "PASSWORD", "Drop Table", "rm -rf", "a", "", " ", "\u20ac", "x
         "\u4e2d", "0", "__"]
 
 
+CLASS_ESC = "sSdDwW"
+
+
+def key_variant(pat, rx, rng, mode="any"):
+    """Another signature under a NEARLY IDENTICAL name: a pattern text that differs from `pat` but has the same lower()
+    (modes letters / class / any) or the same strip() (mode pad, substrings only).  In a regex the letters outside
+    escapes are varied (same meaning under IGNORECASE) and the class escapes \\s \\d \\w <-> \\S \\D \\W (a different
+    meaning); other escapes (\\b, \\., ...) are left alone.  -> None when the pattern offers nothing to vary or the
+    variant is not a regex the model supports."""
+    if mode == "pad":
+        if rx or not pat.strip():
+            return None
+        return rng.choice([pat + " ", " " + pat, pat + "\t"])
+    letters, classes = [], []
+    i = 0
+    while i < len(pat):
+        c = pat[i]
+        if rx and c == "\\" and i + 1 < len(pat):
+            if pat[i + 1] in CLASS_ESC:
+                classes.append(i + 1)
+            i += 2
+            continue
+        if c.isascii() and c.isalpha():
+            letters.append(i)
+        i += 1
+    pool = {"letters": letters, "class": classes}.get(mode, letters + classes)
+    if not pool:
+        return None
+    chosen = set(rng.sample(pool, rng.randint(1, len(pool))))
+    v = "".join(c.swapcase() if k in chosen else c for k, c in enumerate(pat))
+    if v == pat or v.lower() != pat.lower():
+        return None
+    if rx:
+        from translators import regex_to_coq
+        try:
+            re.compile(v, re.IGNORECASE)
+        except re.error:
+            return None
+        if not regex_to_coq.pattern_to_coq(v)[1]:
+            return None
+    return v
+
+
 class MemBook:
     """The monitor's own view of ONE membrane: (id, pattern, is_regex, level) VALUES, updated only by
     operations addressed to that membrane.  Judges every filter result against the property."""
@@ -230,12 +273,15 @@ class MemBook:
         t = self.tag
         active = self.sigs + list(self.learned.values())
         hits = [(i, lvl) for (i, p, rx, lvl) in active if spec_matches(p, rx, x)]
+        names = {i: (("learned/imported " if p in self.learned and self.learned[p][0] == i else "") +
+                     ("regex " if rx else "substring ") + repr(p)) for (i, p, rx, lvl) in active}
         replay = any(b == x for b, _ in self.blocked_by_scan)
         if st["allowed"]:
             bad = [i for (i, lvl) in hits if lvl >= self.thr]
             if bad:
                 return Violation("C10/allowed-despite-signature",
-                                 f"{t}filter allowed {x!r} although active signature(s) {bad} at/above threshold {self.thr} match")
+                                 f"{t}filter allowed {x!r} although active signature(s) "
+                                 f"{[(i, names[i]) for i in bad]} at/above threshold {self.thr} match")
             if replay:
                 return Violation("C10/replay-forgotten", f"{t}{x!r} was blocked by a scan earlier and is allowed now")
             for b, e in self.blocked_by_scan:
@@ -248,7 +294,7 @@ class MemBook:
         if scanned:
             if st["ids"] != sorted(i for i, _ in hits):
                 return Violation("C10/matched-set", f"{t}matched signatures {st['ids']} != matching active signatures "
-                                                    f"{sorted(i for i, _ in hits)} for {x!r}")
+                                                    f"{sorted((i, names[i]) for i, _ in hits)} for {x!r}")
             if st["level"] != max([0] + [l for _, l in hits]):
                 return Violation("C10/level-not-max", f"{t}threat level {st['level']} is not the maximum over matched "
                                                       f"signatures {hits} for {x!r}")
@@ -314,7 +360,12 @@ class C10(Check):
             "Membranes sharing the clock (12%): operations addressed to one membrane, transfer = dst.import_antibodies("
             "src.export_antibodies()) with the very objects, then re-learn (lower/higher level, other kind) / forget / threshold "
             "change / filters on the DONOR (and on the recipient, judging the donor), chains 0->1->2, judged by per-membrane books of "
-            "(pattern, is_regex, level) values - a systematic alias family on every run plus random colonies; scripted "
+            "(pattern, is_regex, level) values - a systematic alias family on every run plus random colonies; NEARLY IDENTICAL NAMES in "
+            "the adaptive memory: two learned/imported signatures whose texts have the same lower() (letters, regex escape classes "
+            "\\s/\\S \\d/\\D \\w/\\W) or the same strip(), entering through learn_threat / import_antibodies (one list, two calls, two "
+            "donors of a colony) in either order and level order, or one spelling only forgotten - every such signature stays active "
+            "until exactly its own text is named (systematic family on every run, random members, and mixed into the free "
+            "histories and colonies); export_antibodies() is observed (ids in dict order) after every non-filter operation; scripted "
             "scenarios: admit-then-TIGHTEN-then-replay of the byte-identical input (the matching signature becomes blocking through "
             "each of import_antibodies / learn_threat / add_signature / a lowered threshold, substring and regex, with unrelated "
             "operations in between; innate: add_pattern / add_validator) - a systematic family run on every run (exhaustive_cases) "
@@ -335,7 +386,9 @@ class C10(Check):
                   "matching active signatures; equal lower() gives equal scans; substring and \\b-free signatures survive any "
                   "embedding, every regex survives embeddings that glue no \\w character onto a \\b-anchored edge of the pattern "
                   "(syntactic edge_free_l/edge_free_r, else pre must not end / post must not start with \\w); a scan-blocked input stays "
-                  "blocked in every later state; with a monotone clock every window shorter than 60 s holds at most rate_limit admitted "
+                  "blocked in every later state; a learned/imported signature stays in the adaptive memory, with its level, through every "
+                  "history that does not learn/import/forget exactly its pattern text (texts differing only in case are different "
+                  "signatures), and while held it blocks / is reported for every input it matches; with a monotone clock every window shorter than 60 s holds at most rate_limit admitted "
                   "requests; every filter call appends exactly its own result to an uncapped audit list; the regex matcher is proved "
                   "sound and complete w.r.t. an inductive matching relation (its Star fuel is never exhausted); check() returns unless "
                   "a validator raises. The shipped patterns are regenerated from the source through CPython's own regex parser on every "
@@ -484,6 +537,96 @@ class C10(Check):
             core = flip_case(core, rng)
         return g, embed(core, rng)[:MAX_COQ_LEN]
 
+    # -- nearly identical names in the adaptive memory ----------------------------------------
+    # two learned / imported signatures whose texts differ only in letter case (or the case of a regex escape
+    # class, or surrounding blanks) are two signatures; forgetting one spelling does not forget the other
+    KEYCLASH = ["learn-learn", "learn-learn-weak-first", "import-list", "import-twice", "learn-import", "import-learn",
+                "forget-variant", "forget-one-of-two"]
+    KEYCLASH_SYS = ["two-donors", "recipient-forgets-variant"]
+
+    def _keyclash_parts(self, rng, pat, rx, mode):
+        v = key_variant(pat, rx, rng, mode)
+        if v is None:
+            return None
+        thr = rng.choice([1, 2, 2, 3])
+        g1 = {"id": 170, "pattern": pat, "regex": rx, "level": rng.randint(thr, 3)}
+        g2 = {"id": 171, "pattern": v, "regex": rx, "level": rng.randint(0, thr - 1)}
+
+        def inst(g):
+            core = self._instance(g, rng)
+            return embed(flip_case(core, rng) if rng.random() < 0.4 else core, rng)[:MAX_COQ_LEN]
+        return thr, g1, g2, inst
+
+    def _keyclash_mem(self, rng, how, pat, rx, mode="any"):
+        """g1 (blocking level) and g2 (a near-identical text, non-blocking level) enter the memory of one membrane
+        through learn_threat / import_antibodies in either order - or g2's text is only forgotten; then inputs
+        built from g1, from g2 and from g1 again are filtered"""
+        parts = self._keyclash_parts(rng, pat, rx, mode)
+        if parts is None:
+            return None
+        thr, g1, g2, inst = parts
+        case = {"kind": "mem", "scenario": "keyclash:" + how, "builtin": list(range(len(self._shipped()[0]))), "custom": [],
+                "threshold": thr, "rate": None, "adaptive": True, "t0": T0_TICKS, "ops": []}
+        ops = case["ops"]
+        if how == "learn-learn":
+            ops += [["learn", g1], ["learn", g2]]
+        elif how == "learn-learn-weak-first":
+            ops += [["learn", g2], ["learn", g1]]
+        elif how == "import-list":
+            ops += [["import", [g1, g2] if rng.random() < 0.5 else [g2, g1]]]
+        elif how == "import-twice":
+            a, b = (g1, g2) if rng.random() < 0.5 else (g2, g1)
+            ops += [["import", [a]], ["import", [b]]]
+        elif how == "learn-import":
+            ops += [["learn", g1], ["import", [g2]]]
+        elif how == "import-learn":
+            ops += [["import", [g1]], ["learn", g2]]
+        elif how == "forget-variant":
+            ops += [["learn", g1] if rng.random() < 0.5 else ["import", [g1]], ["forget", g2["pattern"]]]
+        elif how == "forget-one-of-two":
+            g2["level"] = g1["level"]
+            ops += [["learn", g1], ["learn", g2], ["forget", g2["pattern"]]]
+        else:
+            raise ValueError(how)
+        ops += self._unrelated_mem(rng, rng.random() < 0.3)
+        ops += [["filter", inst(g1)], ["filter", inst(g2)], ["filter", inst(g1)]]
+        return case
+
+    def _keyclash_sys(self, rng, how, pat, rx, mode="any"):
+        parts = self._keyclash_parts(rng, pat, rx, mode)
+        if parts is None:
+            return None
+        thr, g1, g2, inst = parts
+        case = {"kind": "sys", "scenario": "keyclash:" + how, "members": [self._member(rng, thr) for _ in range(3)],
+                "t0": T0_TICKS, "ops": []}
+        ops = case["ops"]
+        if how == "two-donors":          # 0 holds g1, 1 holds g2, 2 imports from both
+            ops += [["m", 0, ["learn", g1]], ["m", 1, ["learn", g2]]]
+            ops += [["transfer", 0, 2], ["transfer", 1, 2]] if rng.random() < 0.5 else [["transfer", 1, 2], ["transfer", 0, 2]]
+        else:                            # 2 imports g1 and forgets the other spelling
+            ops += [["m", 0, ["learn", g1]], ["transfer", 0, 2], ["m", 2, ["forget", g2["pattern"]]]]
+        if rng.random() < 0.3:
+            ops.append(["tick", rng.choice([0, 1, 121])])
+        ops += [["m", 2, ["filter", inst(g1)]], ["m", 2, ["filter", inst(g2)]], ["m", 0, ["filter", inst(g1)]],
+                ["m", 2, ["filter", inst(g1)]]]
+        return case
+
+    KEYCLASH_PATS = [("secret", False, "letters"), ("Drop Table", False, "letters"), (r"rm\s+-rf", True, "class"),
+                     (r"pass\w+", True, "class"), (r"\d+%", True, "class"), (r"\bsudo\b", True, "letters"),
+                     (r"n\Dm", True, "any"), ("Zz", False, "pad"), (r"\S+@\S+", True, "class"), ("ignore previous", False, "any"),
+                     (r"tok\Wen", True, "any"), ("tea", False, "pad")]
+
+    def _random_keyclash(self, rng, k):
+        rx = rng.random() < 0.6
+        pat = rng.choice(RX_ATOMS) if rx else rng.choice([p for p in SUBS if p.strip()])
+        if rng.random() < 0.15:
+            sh = rng.choice([q for q in self._shipped()[rng.randrange(2)] if "pattern" in q])
+            pat, rx = sh["pattern"], sh["is_regex"]
+        mode = rng.choice(["any", "any", "class", "letters", "pad"])
+        if rng.random() < 0.25:
+            return self._keyclash_sys(rng, self.KEYCLASH_SYS[k % 2], pat, rx, mode)
+        return self._keyclash_mem(rng, self.KEYCLASH[k % len(self.KEYCLASH)], pat, rx, mode)
+
     # -- colonies: several membranes, export/import of the very objects ------------------
     ALIAS_VARIANTS = ["relearn-lower", "relearn-higher", "forget", "thr", "relearn-kind", "donor-filter", "chain",
                       "recipient-relearn"]
@@ -555,7 +698,13 @@ class C10(Check):
                 "t0": T0_TICKS + rng.choice([0, 1]), "ops": []}
         shipped = self._shipped()[0]
         pats = rng.sample(RX_ATOMS, 3) + rng.sample([p for p in SUBS if p.strip()], 3)
-        pool = [{"id": 0, "pattern": p, "regex": p in RX_ATOMS, "level": 3} for p in pats]
+        isrx = {p: p in RX_ATOMS for p in pats}
+        for p in rng.sample(pats, 2):         # two of them also under a nearly identical name
+            v = key_variant(p, isrx[p], rng, rng.choice(["any", "class", "pad"]))
+            if v is not None and v not in isrx:
+                isrx[v] = isrx[p]
+                pats.append(v)
+        pool = [{"id": 0, "pattern": p, "regex": isrx[p], "level": 3} for p in pats]
         pool += [shipped[i] for i in rng.sample(range(len(shipped)), 4) if "pattern" in shipped[i]]
         nid = [200]
         ops = case["ops"]
@@ -567,7 +716,7 @@ class C10(Check):
             elif r < 0.60:
                 nid[0] += 1
                 p = rng.choice(pats)
-                ops.append(["m", k, ["learn", {"id": nid[0], "pattern": p, "regex": p in RX_ATOMS,
+                ops.append(["m", k, ["learn", {"id": nid[0], "pattern": p, "regex": isrx[p],
                                                "level": rng.choice([0, 1, 2, 3, 3])}]])
             elif r < 0.75:
                 a = rng.randrange(n)
@@ -579,7 +728,7 @@ class C10(Check):
             elif r < 0.92:
                 nid[0] += 1
                 p = rng.choice(pats)
-                ops.append(["m", k, ["addsig", {"id": nid[0], "pattern": p, "regex": p in RX_ATOMS, "level": rng.choice([1, 2, 3])}]])
+                ops.append(["m", k, ["addsig", {"id": nid[0], "pattern": p, "regex": isrx[p], "level": rng.choice([1, 2, 3])}]])
             elif r < 0.95:
                 ops.append(["m", k, ["clear"]])
             else:
@@ -605,7 +754,12 @@ class C10(Check):
             for pat, rx in pats[:4] if self.tier == "quick" else pats:
                 for variant in self.ALIAS_VARIANTS:
                     out.append(self._alias_sys(rng, variant, pat, rx))
-        return out
+            for pat, rx, mode in self.KEYCLASH_PATS[:8] if self.tier == "quick" else self.KEYCLASH_PATS:
+                for how in self.KEYCLASH:
+                    out.append(self._keyclash_mem(rng, how, pat, rx, mode))
+                for how in self.KEYCLASH_SYS:
+                    out.append(self._keyclash_sys(rng, how, pat, rx, mode))
+        return [c for c in out if c is not None]
 
     def _gen_mem(self, rng):
         shipped = [s for s in self._shipped()[0]]
@@ -617,6 +771,13 @@ class C10(Check):
         def new_sig():
             nid[0] += 1
             return self._sigdesc(rng, nid[0])
+
+        def near(g):        # another signature under a nearly identical name (same lower() / strip())
+            v = key_variant(g["pattern"], g["regex"], rng, rng.choice(["any", "any", "class", "pad"]))
+            if v is None:
+                return None
+            nid[0] += 1
+            return {"id": nid[0], "pattern": v, "regex": g["regex"], "level": rng.choice([0, 1, 2, 3])}
         custom = [new_sig() for _ in range(rng.choice([0, 0, 1, 2, 3]))]
         thr = rng.choice([0, 1, 2, 2, 2, 3, 3])
         rate = rng.choice([None, None, None, None, None, 0, 1, 2, 3, 5])
@@ -635,7 +796,9 @@ class C10(Check):
             if r < 0.4:
                 return ["thr", rng.choice([3, 3, 2, 1])]
             if r < 0.7 and learned:
-                return ["forget", rng.choice(learned)["pattern"]]
+                g = rng.choice(learned)
+                v = key_variant(g["pattern"], g["regex"], rng, rng.choice(["any", "pad"])) if rng.random() < 0.3 else None
+                return ["forget", g["pattern"] if v is None else v]      # the text itself, or another spelling of it
             if r < 0.85:
                 return ["forget", rng.choice(SUBS)]
             return ["clear"]
@@ -670,7 +833,7 @@ class C10(Check):
                     if rng.random() < 0.3:
                         ops.append(["filter", rng.choice([flip_case(x, rng), embed(x, rng)[:MAX_COQ_LEN], x])])
                 elif r < 0.62:
-                    g = new_sig()
+                    g = (near(rng.choice(learned)) if learned and rng.random() < 0.25 else None) or new_sig()
                     ops.append(["learn", g])
                     learned.append(g)
                     pool = pool + [g]
@@ -678,6 +841,10 @@ class C10(Check):
                     gs = [new_sig() for _ in range(rng.randint(0, 3))]
                     if learned and rng.random() < 0.4:     # same key, other level/kind: replaces in place
                         gs.append({**rng.choice(learned), "id": new_sig()["id"], "level": rng.choice([0, 1, 2, 3])})
+                    if learned and rng.random() < 0.3:     # nearly the same key: a separate signature
+                        g = near(rng.choice(learned))
+                        if g is not None:
+                            gs.insert(rng.randint(0, len(gs)), g)
                     ops.append(["import", gs])
                     learned += gs
                     pool = pool + gs
@@ -787,7 +954,11 @@ class C10(Check):
                     out.append(self._tighten_mem(rng, self.MEM_TIGHTEN[k % 4], g, x, allow_rule_ops=rng.random() < 0.3))
                 else:
                     out.append(self._tighten_inn(rng, self.INN_TIGHTEN[k % 2], g, x))
-            elif r < 0.20:
+            elif r < 0.13:
+                c = self._random_keyclash(rng, k)
+                if c is not None:
+                    out.append(c)
+            elif r < 0.23:
                 if rng.random() < 0.35:
                     rx = rng.random() < 0.5
                     pat = rng.choice(RX_ATOMS) if rx else rng.choice([p for p in SUBS if p.strip()])
@@ -826,6 +997,17 @@ class C10(Check):
     # -- implementation ----------------------------------------------------
     def _mk_tsig(self, M, d):
         return M.ThreatSignature(d["pattern"], M.ThreatLevel(d["level"]), f"id{d['id']}", is_regex=d["regex"])
+
+    @staticmethod
+    def _exported(m):
+        """ids of export_antibodies(), in the order given (dict order of the adaptive memory)"""
+        out = []
+        for o in m.export_antibodies():
+            d = o.description
+            if not (isinstance(d, str) and d.startswith("id") and d[2:].isdigit()):
+                raise ValueError(f"unexpected exported signature {d!r}")
+            out.append(int(d[2:]))
+        return out
 
     @staticmethod
     def _ids(objs, builtins):
@@ -949,6 +1131,7 @@ class C10(Check):
                     st["audit_ok"] = (after == [] if kind == "clear"
                                       else len(after) == len(before) and all(a is b for a, b in zip(before, after)))
                     obs.append([-1, len(after), len(m._learned_patterns), m.threshold.value])
+                    obs.append(self._exported(m))
                 steps.append(st)
         finally:
             M.time = saved
@@ -1006,6 +1189,7 @@ class C10(Check):
                     steps.append({"op": "transfer", "k": op[2], "others_audit_ok": same(snap),
                                   "audit_ok": len(after) == len(before) and all(a is b for a, b in zip(before, after))})
                     obs.append([-5, op[2], len(dst._learned_patterns)])
+                    obs.append(self._exported(dst))
                     continue
                 k, mop = op[1], op[2]
                 m = ms[k]
@@ -1053,6 +1237,7 @@ class C10(Check):
                     st["audit_ok"] = (after == [] if kind == "clear"
                                       else len(after) == len(before) and all(a is b for a, b in zip(before, after)))
                     obs.append([-1, k, len(after), len(m._learned_patterns), m.threshold.value])
+                    obs.append(self._exported(m))
                 st["others_audit_ok"] = same(snap)
                 steps.append(st)
         finally:
@@ -1410,8 +1595,12 @@ class C10(Check):
         if k in ("shipped", "sig"):
             ks += ["sig-match" if r else "sig-nomatch" for r in trace.get("res", [])]
             return ks
+        if str(case.get("scenario", "")).startswith("keyclash:"):
+            fs = [st for st in trace.get("steps", []) if st["op"] == "filter" and "allowed" in st and st.get("ids")]
+            ks.append(case["scenario"] + (":first-spelling-" + ("blocks" if not fs[0]["allowed"] else "ADMITS") if fs
+                                          else ":no-hit"))
         if k == "sys":
-            if case.get("scenario"):
+            if case.get("scenario") and not case["scenario"].startswith("keyclash:"):
                 fs = [st for st in trace.get("steps", []) if st["op"] == "filter" and "allowed" in st]
                 ks.append(case["scenario"] + (":victim-blocks" if fs and not fs[-3]["allowed"] else ":victim-admits")
                           if len(fs) >= 3 else case["scenario"])
@@ -1422,7 +1611,7 @@ class C10(Check):
                                                "replay-blocked" if st["level"] == 3 and not st["ids"] and not st["allowed"]
                                                else "scanned-" + ("allowed" if st["allowed"] else "blocked")))
             return ks
-        if case.get("scenario"):
+        if case.get("scenario") and not case["scenario"].startswith("keyclash:"):
             key = "filter" if k == "mem" else "check"
             fs = [st for st in trace.get("steps", []) if st["op"] == key and st.get("content") == case["ops"][0][1]
                   and "allowed" in st]
